@@ -65,11 +65,11 @@ def ledgerPay (l : Ledger) : List (Key × Rec × Outcome) → Ledger
 def ledgerCreate (l : Ledger) (name : List Char) (t : DType) (outs : List Output) : Ledger :=
   { l with created := fun k d => l.created k d + outsFor name t outs k d }
 
-/-- what a transaction's trace paid to account `a` -/
-def paidTo : List (Key × Rec × Outcome) → Addr → Denom → Nat
+/-- what a transaction's trace paid to account `a` (`canon` maps a recipient spelling to its account) -/
+def paidTo (canon : Addr → Addr) : List (Key × Rec × Outcome) → Addr → Denom → Nat
   | [], _, _ => 0
-  | (_, r, .paid) :: os, a, d => (if r.rcpt = a then coinsGet r.coins d else 0) + paidTo os a d
-  | (_, _, _) :: os, a, d => paidTo os a d
+  | (_, r, .paid) :: os, a, d => (if canon r.rcpt = a then coinsGet r.coins d else 0) + paidTo canon os a d
+  | (_, _, _) :: os, a, d => paidTo canon os a d
 
 /-- ghost ledger along a history: an accepted create adds its outputs to `created`, a run adds
     what it paid / failed -/
@@ -113,32 +113,65 @@ instance (created paid : Key → Denom → Nat) (s : DispState) (k : Key) (d : D
 def ledgerObsOn (ks : List Key) (ds : List Denom) (created paid : Key → Denom → Nat) (s : DispState) : Bool :=
   ks.all fun k => ds.all fun d => decide (ledgerObs created paid s k d)
 
-/-- One run transaction as observed on the implementation: `deltas` = balance increases of the
-    accounts (address, coins); `pre`/`post` = pending store before/after.
-    * at most `count` accounts were paid (none if the count is not positive);
-    * every paid account had a pending record of the message's name and type whose authorised
-      runner is the message's runner (= its signer), was paid exactly that record's coins, and the
-      record is gone from pending afterwards. -/
-def runObsOK (m : MsgRun) (pre post : Store Rec) (deltas : List (Addr × Coins)) (ds : List Denom) : Bool :=
-  decide ((deltas.length : Int) ≤ max m.count 0) &&
-  deltas.all fun (a, c) =>
-    match sGet pre (recordKey m.name m.typ a) with
-    | none => false
-    | some r => r.runner == m.runner && r.name == m.name && r.typ == m.typ && r.rcpt == a &&
-        (ds.all fun d => coinsGet c d == coinsGet r.coins d) &&
-        !sHas post (recordKey m.name m.typ a)
+/-- `canon` maps a recipient spelling to its account (bech32 is case-insensitive). -/
+def canonKey (canon : Addr → Addr) (r : Rec) : Key := recordKey r.name r.typ (canon r.rcpt)
 
-/-- Nothing is silently dropped by a run (as observed): every record that was pending before the
-    transaction and is not pending after it was either paid — its recipient's balance grew by
-    exactly the record's coins — or is now in the failed store with its coins.
-    (`pending ∪ completed ∪ failed` keeps accounting for every output ever created.) -/
-def leaversOK (pre post postFailed : Store Rec) (deltas : List (Addr × Coins)) (ds : List Denom) : Bool :=
-  pre.all fun (k, r) =>
-    sHas post k ||
-    (deltas.any fun (a, c) => a == r.rcpt && ds.all fun d => coinsGet c d == coinsGet r.coins d) ||
-    (match sGet postFailed k with
-     | some f => ds.all fun d => coinsGet f.coins d == coinsGet r.coins d
-     | none => false)
+/-- amount recorded in a store for an ACCOUNT-level key: all spellings of the recipient together -/
+def amtC (canon : Addr → Addr) (st : Store Rec) (k : Key) (d : Denom) : Nat :=
+  ((st.filter fun p => canonKey canon p.2 == k).map fun p => coinsGet p.2.coins d).sum
+
+/-- observable ledger clause per account-level key -/
+def ledgerObsC (canon : Addr → Addr) (created paid : Key → Denom → Nat) (s : DispState) (k : Key) (d : Denom) : Bool :=
+  decide (paid k d + amtC canon s.pending k d + amtC canon s.failed k d ≤ created k d) &&
+  decide (amtC canon s.completed k d ≤ paid k d)
+
+def ledgerObsOnC (canon : Addr → Addr) (ks : List Key) (ds : List Denom) (created paid : Key → Denom → Nat)
+    (s : DispState) : Bool :=
+  ks.all fun k => ds.all fun d => ledgerObsC canon created paid s k d
+
+/-- records that were pending before the transaction and are not pending after it -/
+def leavers (pre post : Store Rec) : List Rec := (pre.filter fun p => !sHas post p.1).map (·.2)
+
+def inFailed (postFailed : Store Rec) (ds : List Denom) (r : Rec) : Bool :=
+  match sGet postFailed r.key with
+  | some f => ds.all fun d => coinsGet f.coins d == coinsGet r.coins d
+  | none => false
+
+/-- all sub-collections of a list (core has no `List.sublists`) -/
+def subLists {α} : List α → List (List α)
+  | [] => [[]]
+  | x :: xs => let r := subLists xs; r ++ r.map (x :: ·)
+
+/-- Per account: the balance increase is exactly the sum of the coins of some of the records of that
+    account that left pending (the paid ones), and the other leavers of that account are in the
+    failed store.  An account with no leaver gains nothing; a record that leaves pending is paid in
+    full or failed — never silently dropped; a record that is paid leaves pending. -/
+def accountsOK (canon : Addr → Addr) (pre post postFailed : Store Rec) (deltas : List (Addr × Coins)) (ds : List Denom) : Bool :=
+  let lv := leavers pre post
+  let accounts := ((lv.map fun r => canon r.rcpt) ++ deltas.map (·.1)).eraseDups
+  accounts.all fun a =>
+    let la := lv.filter fun r => canon r.rcpt == a
+    let delta := ((deltas.find? fun p => p.1 == a).map (·.2)).getD []
+    (subLists la).any fun P =>
+      (ds.all fun d => ((P.map fun r => coinsGet r.coins d).sum) == coinsGet delta d) &&
+      ((la.filter fun r => !P.contains r).all fun r => inFailed postFailed ds r)
+
+/-- One run transaction as observed on the implementation (`deltas` = balance increases per
+    account; `pre`/`post` = pending store before/after; `postFailed` = failed store after):
+    * at most `count` records leave pending (none if the count is not positive);
+    * every record that leaves pending has the message's name and type, and its authorised runner is
+      the message's runner (= its signer);
+    * `accountsOK`: paid exactly and in full, or failed. -/
+def runObsOK (canon : Addr → Addr) (m : MsgRun) (pre post postFailed : Store Rec) (deltas : List (Addr × Coins))
+    (ds : List Denom) : Bool :=
+  decide (((leavers pre post).length : Int) ≤ max m.count 0) &&
+  ((leavers pre post).all fun r => r.runner == m.runner && r.name == m.name && r.typ == m.typ) &&
+  accountsOK canon pre post postFailed deltas ds
+
+/-- nothing is silently dropped, nobody is paid without a record leaving pending (the accounting
+    clause alone, under its own tag) -/
+def leaversOK (canon : Addr → Addr) (pre post postFailed : Store Rec) (deltas : List (Addr × Coins)) (ds : List Denom) : Bool :=
+  accountsOK canon pre post postFailed deltas ds
 
 /-- keys of a store are pairwise different (a user holds at most one claim per type: the claim
     store has one entry per (user, type) key) -/
